@@ -153,6 +153,10 @@ class Oracle:
                 return "skip"
             if RANK[a] > RANK[worst]:
                 worst = a
+        if isinstance(p, B.CondExpr) and RANK[act] > RANK[worst]:
+            # `[[ ]]` is not one of the composition operators the statement lists, and Dippy re-reads the raw text of its
+            # operands conservatively (a quote, `=~`): only "hides nothing" is demanded here, not equality
+            return None
         if act != worst:
             return {
                 "input": {"command": text, "config": self.cfg_text, "cwd": str(self.cwd)},
